@@ -57,7 +57,9 @@ contract(SM + '.process_input', props=['C06'],
 
 CM = 'h2.connection.H2ConnectionStateMachine'
 modular(CM + '.process_input')
-contract(CM + '.process_input', props=['C19', 'C08'],
+# every frame handler and sending call consults this table first, so the properties about what a received PING /
+# PRIORITY frame does (C26, C23) rest on its rows as much as C19 / C08 do
+contract(CM + '.process_input', props=['C19', 'C08', 'C26', 'C23'],
     args={'input_': 'enum:ConnectionInputs'},
     setup=concretize_state_and_input, result='list',
     modifies=['field|self.state|enum:ConnectionState'],
